@@ -1,7 +1,7 @@
 (* CurveRefine: T18a.  Curve::new / BorrowedCurve::new with arbitrary prior
-   scratch-buffer contents (L0) compute the pure curve (L1) -- for a non-empty
-   control-point list.  For the empty list the code returns before clearing
-   the path buffer (defect D7); that case is characterised exactly. *)
+   scratch-buffer contents (L0) compute the pure curve (L1), for every
+   control-point list including the empty one (the path buffer is cleared
+   before the early return on an empty list). *)
 From RM Require Import Model.ControlPoints Model.Curve Proofs.BezierRefine.
 Open Scope nat_scope.
 
@@ -119,51 +119,53 @@ Section WithLibm.
 
   (* the path computation *)
   Lemma calculate_path_refines mode pts bufs opt0 :
-    pts <> [] -> cb_wf bufs ->
+    cb_wf bufs ->
     match calculate_path_L1 lm fuel mode pts with
     | Done (path, opt) =>
-        exists bz, calculate_path_L0 lm fuel mode pts bufs opt0
-                   = Done (mkCB path (cb_lengths bufs) (map pc_pos pts) bz, opt) /\ bb_wf bz
+        exists verts bz, calculate_path_L0 lm fuel mode pts bufs opt0
+                   = Done (mkCB path (cb_lengths bufs) verts bz, opt) /\ bb_wf bz
     | Panic w => calculate_path_L0 lm fuel mode pts bufs opt0 = Panic w
     | OutOfFuel => calculate_path_L0 lm fuel mode pts bufs opt0 = OutOfFuel
     end.
   Proof.
-    intros Hne Hwf. unfold calculate_path_L1, calculate_path_L0.
-    destruct pts as [|p0 pt]; [congruence|]. set (pts := p0 :: pt).
+    intros Hwf. unfold calculate_path_L1, calculate_path_L0.
+    destruct pts as [|p0 pt].
+    { do 2 eexists. split; [reflexivity|exact Hwf]. }
+    set (pts := p0 :: pt).
     pose proof (cpath_loop_sim (approximate_bezier_L0 fuel) (approximate_bezier_L1 fuel) bb_wf lm bezier_sim
                   (length pts) 0 0 (length pts) (is_osu mode) pts (map pc_pos pts) [] D.zero
                   (cb_bezier bufs) Hwf) as HS.
     destruct (cpath_loop (approximate_bezier_L1 fuel) lm (length pts) 0 0 (length pts) (is_osu mode) pts
                 (map pc_pos pts) [] D.zero tt) as [[[path opt] []]| |]; cbn [sim3] in HS.
-    - destruct HS as (bz & -> & Hbz). cbn [obind]. exists bz. split; [reflexivity|exact Hbz].
+    - destruct HS as (bz & -> & Hbz). cbn [obind]. do 2 eexists. split; [reflexivity|exact Hbz].
     - rewrite HS. reflexivity.
     - rewrite HS. reflexivity.
   Qed.
 
   Lemma compute_refines mode pts e bufs :
-    pts <> [] -> cb_wf bufs ->
+    cb_wf bufs ->
     match curve_L1 lm fuel mode pts e with
-    | Done c => exists bz, compute_L0 lm fuel mode pts e bufs
-                           = Done (mkCB (c_path c) (c_lengths c) (map pc_pos pts) bz) /\ bb_wf bz
+    | Done c => exists verts bz, compute_L0 lm fuel mode pts e bufs
+                           = Done (mkCB (c_path c) (c_lengths c) verts bz) /\ bb_wf bz
     | Panic w => compute_L0 lm fuel mode pts e bufs = Panic w
     | OutOfFuel => compute_L0 lm fuel mode pts e bufs = OutOfFuel
     end.
   Proof.
-    intros Hne Hwf. unfold curve_L1, compute_L0.
-    pose proof (calculate_path_refines mode pts bufs D.zero Hne Hwf) as HP.
+    intros Hwf. unfold curve_L1, compute_L0.
+    pose proof (calculate_path_refines mode pts bufs D.zero Hwf) as HP.
     destruct (calculate_path_L1 lm fuel mode pts) as [[path opt]| |].
-    - destruct HP as (bz & -> & Hbz). cbn [obind]. unfold calculate_length_L0. cbn [cb_path cb_vertices cb_bezier].
+    - destruct HP as (verts & bz & -> & Hbz). cbn [obind]. unfold calculate_length_L0. cbn [cb_path cb_vertices cb_bezier].
       destruct (calculate_length path e opt) as [[path' lens]| |]; cbn [obind].
-      + exists bz. split; [reflexivity|exact Hbz].
+      + do 2 eexists. split; [reflexivity|exact Hbz].
       + reflexivity.
       + reflexivity.
     - rewrite HP. reflexivity.
     - rewrite HP. reflexivity.
   Qed.
 
-  (* T18a, owned constructor *)
+  (* T18a, owned constructor: every list, every prior buffer content *)
   Theorem curve_new_refines mode pts e bufs :
-    pts <> [] -> cb_wf bufs ->
+    cb_wf bufs ->
     match curve_L1 lm fuel mode pts e with
     | Done c => exists bufs', curve_new_L0 lm fuel mode pts e bufs = Done (c, bufs') /\ cb_wf bufs'
                               /\ cb_path bufs' = [] /\ cb_lengths bufs' = []
@@ -171,9 +173,9 @@ Section WithLibm.
     | OutOfFuel => curve_new_L0 lm fuel mode pts e bufs = OutOfFuel
     end.
   Proof.
-    intros Hne Hwf. pose proof (compute_refines mode pts e bufs Hne Hwf) as HC. unfold curve_new_L0.
+    intros Hwf. pose proof (compute_refines mode pts e bufs Hwf) as HC. unfold curve_new_L0.
     destruct (curve_L1 lm fuel mode pts e) as [c| |].
-    - destruct HC as (bz & -> & Hbz). cbn [obind cb_path cb_lengths cb_vertices cb_bezier].
+    - destruct HC as (verts & bz & -> & Hbz). cbn [obind cb_path cb_lengths cb_vertices cb_bezier].
       eexists. split; [destruct c; reflexivity|]. repeat split. exact Hbz.
     - rewrite HC. reflexivity.
     - rewrite HC. reflexivity.
@@ -181,7 +183,7 @@ Section WithLibm.
 
   (* T18a, borrowed constructor: the view of the buffers is the same curve *)
   Theorem borrowed_new_refines mode pts e bufs :
-    pts <> [] -> cb_wf bufs ->
+    cb_wf bufs ->
     match curve_L1 lm fuel mode pts e with
     | Done c => exists bufs', borrowed_new_L0 lm fuel mode pts e bufs = Done (c, bufs') /\ cb_wf bufs'
                               /\ cb_path bufs' = c_path c /\ cb_lengths bufs' = c_lengths c
@@ -189,9 +191,9 @@ Section WithLibm.
     | OutOfFuel => borrowed_new_L0 lm fuel mode pts e bufs = OutOfFuel
     end.
   Proof.
-    intros Hne Hwf. pose proof (compute_refines mode pts e bufs Hne Hwf) as HC. unfold borrowed_new_L0.
+    intros Hwf. pose proof (compute_refines mode pts e bufs Hwf) as HC. unfold borrowed_new_L0.
     destruct (curve_L1 lm fuel mode pts e) as [c| |].
-    - destruct HC as (bz & -> & Hbz). cbn [obind cb_path cb_lengths cb_vertices cb_bezier].
+    - destruct HC as (verts & bz & -> & Hbz). cbn [obind cb_path cb_lengths cb_vertices cb_bezier].
       eexists. split; [destruct c; reflexivity|]. repeat split. exact Hbz.
     - rewrite HC. reflexivity.
     - rewrite HC. reflexivity.
@@ -199,9 +201,9 @@ Section WithLibm.
 
   (* ... in the form of DESIGN C18: result (curve_L0 bufs ...) = curve_L1 ... *)
   Corollary curve_new_result mode pts e bufs :
-    pts <> [] -> cb_wf bufs -> ores (curve_new_L0 lm fuel mode pts e bufs) = curve_L1 lm fuel mode pts e.
+    cb_wf bufs -> ores (curve_new_L0 lm fuel mode pts e bufs) = curve_L1 lm fuel mode pts e.
   Proof.
-    intros Hne Hwf. pose proof (curve_new_refines mode pts e bufs Hne Hwf) as H.
+    intros Hwf. pose proof (curve_new_refines mode pts e bufs Hwf) as H.
     destruct (curve_L1 lm fuel mode pts e).
     - destruct H as (b' & -> & _). reflexivity.
     - rewrite H. reflexivity.
@@ -209,9 +211,9 @@ Section WithLibm.
   Qed.
 
   Corollary borrowed_new_result mode pts e bufs :
-    pts <> [] -> cb_wf bufs -> ores (borrowed_new_L0 lm fuel mode pts e bufs) = curve_L1 lm fuel mode pts e.
+    cb_wf bufs -> ores (borrowed_new_L0 lm fuel mode pts e bufs) = curve_L1 lm fuel mode pts e.
   Proof.
-    intros Hne Hwf. pose proof (borrowed_new_refines mode pts e bufs Hne Hwf) as H.
+    intros Hwf. pose proof (borrowed_new_refines mode pts e bufs Hwf) as H.
     destruct (curve_L1 lm fuel mode pts e).
     - destruct H as (b' & -> & _). reflexivity.
     - rewrite H. reflexivity.
@@ -219,15 +221,9 @@ Section WithLibm.
   Qed.
 
   Corollary owned_borrowed_agree mode pts e bufs1 bufs2 :
-    pts <> [] -> cb_wf bufs1 -> cb_wf bufs2 ->
+    cb_wf bufs1 -> cb_wf bufs2 ->
     ores (curve_new_L0 lm fuel mode pts e bufs1) = ores (borrowed_new_L0 lm fuel mode pts e bufs2).
   Proof. intros. rewrite curve_new_result, borrowed_new_result by assumption. reflexivity. Qed.
-
-  (* the empty list (D7): the path buffer is not cleared; the result is
-     calculate_length of whatever path the buffers still hold *)
-  Lemma compute_nil mode e bufs :
-    compute_L0 lm fuel mode [] e bufs = calculate_length_L0 bufs e D.zero.
-  Proof. reflexivity. Qed.
 
   Lemma calculate_length_nil e opt :
     calculate_length [] e opt = Done ([], [D.zero]).
@@ -237,43 +233,17 @@ Section WithLibm.
     cbn [last_two_equal rev app andb length Nat.eqb]. reflexivity.
   Qed.
 
-  (* with a clean path buffer (fresh buffers, or after an owned computation)
-     the empty list gives the pure result as well *)
-  Theorem curve_new_nil_clean mode e bufs :
-    cb_path bufs = [] ->
-    ores (curve_new_L0 lm fuel mode [] e bufs) = curve_L1 lm fuel mode [] e /\
-    ores (borrowed_new_L0 lm fuel mode [] e bufs) = curve_L1 lm fuel mode [] e.
+  (* the empty list: no vertex, the single cumulative length 0.0 -- whatever the buffers held *)
+  Theorem empty_list_curve mode e bufs :
+    cb_wf bufs ->
+    curve_L1 lm fuel mode [] e = Done (mkCurve [] [D.zero]) /\
+    ores (curve_new_L0 lm fuel mode [] e bufs) = Done (mkCurve [] [D.zero]) /\
+    ores (borrowed_new_L0 lm fuel mode [] e bufs) = Done (mkCurve [] [D.zero]).
   Proof.
-    intros Hc. unfold curve_new_L0, borrowed_new_L0, curve_L1. rewrite compute_nil.
-    unfold calculate_length_L0, calculate_path_L1. rewrite Hc. cbn [obind].
-    rewrite !calculate_length_nil. cbn [obind ores]. split; reflexivity.
+    intros Hwf.
+    assert (H : curve_L1 lm fuel mode [] e = Done (mkCurve [] [D.zero])).
+    { unfold curve_L1, calculate_path_L1. cbn [obind]. rewrite calculate_length_nil. reflexivity. }
+    split; [exact H|]. rewrite curve_new_result, borrowed_new_result by exact Hwf. split; exact H.
   Qed.
 End WithLibm.
 
-(* ---------- D7: the full statement (every list, every buffer state) is false ---------- *)
-
-Lemma calculate_length_single p e opt :
-  calculate_length [p] e opt = Done ([p], [D.zero]).
-Proof.
-  unfold calculate_length. cbn [cum_lengths]. destruct e as [x|]; [|reflexivity].
-  destruct (negb (D.ge (D.abs (D.sub opt x)) D.eps)); [reflexivity|].
-  cbn [last_two_equal rev app andb length Nat.eqb]. reflexivity.
-Qed.
-
-(* buffers as a borrowed computation of a single-point list leaves them *)
-Definition d7_bufs : CurveBuffers := mkCB [pos0] [D.zero] [pos0] (mkBB [] [] [] []).
-
-Lemma d7_refutes lm fuel mode e :
-  cb_wf d7_bufs /\
-  ores (borrowed_new_L0 lm fuel mode [] e d7_bufs) = Done (mkCurve [pos0] [D.zero]) /\
-  curve_L1 lm fuel mode [] e = Done (mkCurve [] [D.zero]) /\
-  ores (borrowed_new_L0 lm fuel mode [] e d7_bufs) <> curve_L1 lm fuel mode [] e.
-Proof.
-  assert (H1 : ores (borrowed_new_L0 lm fuel mode [] e d7_bufs) = Done (mkCurve [pos0] [D.zero])).
-  { unfold borrowed_new_L0. rewrite compute_nil. unfold calculate_length_L0, d7_bufs. cbn [cb_path].
-    rewrite calculate_length_single. reflexivity. }
-  assert (H2 : curve_L1 lm fuel mode [] e = Done (mkCurve [] [D.zero])).
-  { unfold curve_L1, calculate_path_L1. cbn [obind]. rewrite calculate_length_nil. reflexivity. }
-  split; [exact bb_wf_default|]. split; [exact H1|]. split; [exact H2|].
-  rewrite H1, H2. intros H. inversion H.
-Qed.
